@@ -562,6 +562,9 @@ def run(ck: Check):
                     "the real while loop's iteration count equals the model's on every case and stays within the proven bound")
     ck.assumptions.append("Python sets are modelled as lists compared as sets; dict insertion order and set iteration order are not "
                           "compared (UD/DU keys and values are sorted on both sides)")
+    ck.assumptions.append("interpretation: a definition in a node that is unreachable from the entry counts as reaching the nodes below "
+                          "it (paths may start at the node holding the definition) - this is what the code computes and what the oracle "
+                          "demands; theorems reach_def_reachable / reach_def_rooted give the from-the-entry form")
     ck.assumptions.append("paths are paths of the node graph (normal + catch edges) from the end of a node to the start of its "
                           "successor (DESIGN section 10); an exception raised in the middle of a block is not modelled")
 
